@@ -32,7 +32,8 @@ def _generic_replay(path):
                              kill_when=opts.get("kill_when"), starve=opts.get("starve"), p_scope=opts.get("p_scope"),
                              t_scope=opts.get("t_scope"), t_when=opts.get("t_when"),
                              p_when=opts.get("p_when"), t_cur=opts.get("t_cur"),
-                             zero_when=opts.get("zero_when"))
+                             zero_when=opts.get("zero_when"), lines=opts.get("lines"),
+                             p_cur=opts.get("p_cur"), horizon=opts.get("horizon", 50_000))
     print(explore.render(rec))
     print("signature on file:", v.get("signature"))
     return 0
